@@ -11,7 +11,7 @@ import IronCalc.Formula.Rename
   ASCII letters).
 -/
 namespace IronCalc.Book
-open IronCalc.Formula
+open IronCalc.RefTree
 
 structure Fold where
   up : String → String      -- str::to_uppercase
